@@ -942,6 +942,10 @@ type subscriptionState struct {
 	// removed guards against writes after the subscription has been removed.
 	// Uses CompareAndSwap to prevent double-close of the completed channel.
 	removed atomic.Bool
+	// terminated records that the terminal frame (complete or error) has been written: nothing may
+	// follow it, although the subscription is only removed later, when the trigger is done.
+	// Guarded by writeMu.
+	terminated bool
 	// lastWriteTime stores unix nanos of the last successful data write.
 	lastWriteTime atomic.Int64
 }
@@ -965,10 +969,11 @@ func (s *subscriptionState) done() {
 func (s *subscriptionState) complete() {
 	s.writeMu.Lock()
 	defer s.writeMu.Unlock()
-	if s.removed.Load() {
+	if s.removed.Load() || s.terminated {
 		return
 	}
 	s.writer.Complete()
+	s.terminated = true
 }
 
 // error delivers a terminal error payload to the downstream writer.
@@ -976,17 +981,18 @@ func (s *subscriptionState) complete() {
 func (s *subscriptionState) error(data []byte) {
 	s.writeMu.Lock()
 	defer s.writeMu.Unlock()
-	if s.removed.Load() {
+	if s.removed.Load() || s.terminated {
 		return
 	}
 	s.writer.Error(data)
+	s.terminated = true
 }
 
 // writeError delivers a formatted error to the downstream writer under writeMu.
 func (s *subscriptionState) writeError(w AsyncErrorWriter, ctx *Context, err error, response *GraphQLResponse) {
 	s.writeMu.Lock()
 	defer s.writeMu.Unlock()
-	if s.removed.Load() {
+	if s.removed.Load() || s.terminated {
 		return
 	}
 	w.WriteError(ctx, err, response, s.writer)
@@ -997,7 +1003,7 @@ func (s *subscriptionState) writeError(w AsyncErrorWriter, ctx *Context, err err
 func (s *subscriptionState) sendHeartbeat() error {
 	s.writeMu.Lock()
 	defer s.writeMu.Unlock()
-	if s.removed.Load() {
+	if s.removed.Load() || s.terminated {
 		return nil
 	}
 	return s.writer.Heartbeat()
@@ -1063,7 +1069,7 @@ func (r *Resolver) executeSubscriptionUpdate(resolveCtx *Context, sub *subscript
 	}
 
 	sub.writeMu.Lock()
-	if sub.removed.Load() {
+	if sub.removed.Load() || sub.terminated {
 		sub.writeMu.Unlock()
 		r.resolveArenaPool.Release(resolveArena)
 		return
